@@ -151,6 +151,16 @@ def PowMonoTime (ops : FloatOps) : Prop :=
 def PowMonoRate (ops : FloatOps) : Prop :=
   ∀ l1 l2 s, 0 ≤ l1 → l1 ≤ l2 → 0 ≤ s → ops.pow (xF l1) (yF s) ≤ ops.pow (xF l2) (yF s)
 
+/-- Explicit error term of the two-interval law (`C18.more_frequent_accrual_not_more`), in raw 10^-18 units:
+`10^18 · a · ( c·ε·(1+u)² + (c−1)·4u ) + 2` with `a` the principal and `c` the power value of the combined
+interval (both as real numbers), `ε = 1/E` the slack of `pow_submult`, `u = 2^-53` the unit round-off. The `2`
+covers three half-ulp roundings of the 18-digit formatting and the `2^-1075` absolute errors. -/
+def subaddErr (E : Nat) (a c : Int) : Rat :=
+  let ar : Rat := (a : Rat) / (U : Rat)
+  let cr : Rat := (c : Rat) / (U : Rat)
+  let u : Rat := 1 / ((2 ^ 53 : Nat) : Rat)
+  (P18 : Rat) * ar * (cr * (1 / (E : Rat)) * ((1 + u) * (1 + u)) + (cr - 1) * (4 * u)) + 2
+
 /-- the accrued amount as a function of the inputs, on the success path of `calcRewards` -/
 def interest (ops : FloatOps) (amount : Int) (lsr : Dec) (secs : Int) : Dec :=
   interestOfPow (ops.pow (xF lsr) (yF secs)) (aF amount)
